@@ -91,6 +91,7 @@ PROPS = {
     ),
     'C03': dict(
         v=['C03_coord'], k=[], b=['c03_2pc', 'c03_force'],
+        pairs={'C03_coord': ['bounded:c03_2pc', 'bounded:c03_force']},
         level='other',
         technique='Verus: the decision-taking coordinator functions (commit, abort, complete_commit, complete_abort, force_resolve) extracted from distributed_tx.rs and proved against a coordinator invariant over a ghost image of the WAL record sequence (commit decision in memory iff durable; a durable abort is in memory; never both decisions on record); bounded native contract checks of vote recording, timeouts and the participant over all short call sequences',
         claim='for every coordinator state and every WAL append outcome: commit only from Prepared, the commit/abort record is durable before it is acted on, an abort is never taken or logged after a commit record exists (and vice versa), failed appends leave memory and log agreeing (Verus; lock erased, vote map projected away, WAL append atomic w.r.t. its result); BOUNDED: commit only with every yes vote, duplicate/late/non-participant votes, timeouts, participant apply-iff-commit on every call sequence of length <= 5 (quick) over 1-2 transactions x 2-3 shards',
@@ -153,8 +154,8 @@ PROPS = {
         v=['C20_ids', 'C20_rle', 'C06_sparse', 'C20_frame'],
         k=[('tensor_chain', ['c20_frame_flags_roundtrip', 'c20_method_from_flags_total', 'c20_length_prefix_roundtrip']),
            ('tensor_store', ['c07_header_roundtrip_fields', 'c07_header_roundtrip_bytes', 'c07_header_validate_exact'])],
-        b=['c20_ids'],
-        pairs={'C20_ids': ['bounded:c20_ids']},
+        b=['c20_ids', 'c20_frames'],
+        pairs={'C20_ids': ['bounded:c20_ids'], 'C20_frame': ['bounded:c20_frames']},
         level='other',
         technique='Verus: extracted delta/varint/compress_ids/rle/sparse codecs proved against spec functions + round-trip theorems; Kani: frame flags, length prefix, snapshot header; bounded native pair for replay',
         claim='id-list, varint, RLE and sparse codecs are exact inverses for ALL inputs and total on arbitrary bytes (Verus, unbounded); frame flag/length-prefix/header codecs (Kani, complete); bounded native pair supplies replayable inputs',
